@@ -236,6 +236,13 @@ def c18_3(run):
     pkt = Obj('ibc_types::core::channel::Packet')
     st = ex.start(f, [B.cell(Obj('S', kind='cell')), B.cell(pkt)], world=dict(w0))
     seen = set()
+    # which upgrade-change cell means "post-Blackburn" is taken from the code's own is_post_blackburn
+    g = ex.find(r'^is_post_blackburn$')
+    stb = ex.start(g, [B.cell(Obj('S', kind='cell'))], world=dict(w0))
+    reads = {str(e[2]): e[2] for q in run.explore(ex, stb, poll=True, allow_havoc=(r'^Arguments::|fmt::',)) for e in q.log if e[0] == 'read' and e[1] == 'upgrade_change'}
+    if len(reads) != 1:
+        raise Inconclusive(f'is_post_blackburn reads {len(reads)} upgrade cells')
+    bkey = list(reads.values())[0]
     for i, p in enumerate(run.explore(ex, st, poll=True, allow_havoc=(r'^Arguments::|fmt::', r'new_adhoc'))):
         if p.kind != 'return':
             run.prove(f'no panic [path {i}]', p.pc, z3.BoolVal(False), detail=p.info); continue
@@ -244,6 +251,11 @@ def c18_3(run):
         run.sample({'path': i, 'result': kind, 'writes': [e[1] for e in p.log if e[0] == 'write']})
         if kind == 'Ok':
             receive_claims(run, ex, W, w0, p, kind, f'[path {i}]', lambda pp: ex.deref_val(pp, pp.roots['args'][1]))
+            bw = [e for e in p.log if e[0] == 'write' and e[1] == 'balance']
+            if len(bw) == 1:
+                asset = z3.Extract(255, 0, bw[0][2])
+                run.prove(f'successful receive while the Blackburn ICS20 change is active => the credited asset is an allowed fee asset [path {i}]', p.pc,
+                          z3.Implies(z3.Select(w0['upgrade_change?'], bkey), z3.Select(w0['allowed_fee_asset'], asset)))
     if 'Ok' not in seen:
         raise Inconclusive('vacuity: no successful receive')
     run.require_reached(*run.cur.reach)
